@@ -138,6 +138,39 @@ def check(ctx):
     if ok2 or ok3:
         raise vlib.Infra("binding self-test failed: corrupted v5 trace accepted")
     ctx.binding_selftests += [{"corrupt": "flow field octet flipped", "rejected": True}, {"corrupt": "two flow fields swapped", "rejected": True}]
+    # the same code built for a 32-bit architecture (GOARCH=386; int is 32 bits wide there): counters and timestamps at and above
+    # 2^31 come out of the JSON as the numbers they are
+    try:
+        drv32 = ctx.go_build_test("netflow/v5", ["netflow5/decode_verif_test.go"], goarch="386")
+    except vlib.Infra as e:
+        drv32 = None
+        ctx.assumptions.append("the 32-bit build of the driver could not be made here: %s" % str(e)[:200])
+    if drv32:
+        jobs32 = []
+        for val in ([128, 0, 0, 0], [255, 255, 255, 240], [127, 255, 255, 255], [255, 255, 255, 255], [0, 0, 0, 1]):
+            hdr = [0, 5, 0, 2] + val + val + val + val + [1, 2] + [0, 100]
+            recs = []
+            for k in range(2):
+                rec = [rng.randrange(1, 255) for _ in range(48)]
+                for off in (16, 20, 24, 28):            # dPkts, dOctets, First, Last
+                    rec[off:off + 4] = val
+                recs += rec
+            jobs32.append({"msgs": [{"exp": exps[0], "buf": hdr + recs}], "want_json": True})
+        res32 = flowjobs.run_jobs(ctx, drv32, "TestVerifNF5Jobs", jobs32, tag="v5_386")
+        for job, x in zip(jobs32, res32):
+            buf = job["msgs"][0]["buf"]
+            ctx.count(["386", buf], nontrivial=True)
+            if x.get("skipped") or "killed" in x:
+                ctx.assumptions.append("32-bit test binaries do not run in this sandbox")
+                break
+            y = x["res"][0]
+            raw = base64.b64decode(y["json"]) if y.get("json") else b""
+            try:
+                jsoncheck.check_v5_doc(jsoncheck.parse(raw), job["msgs"][0]["exp"], y)
+                ctx.extra["json_documents_checked_386"] = ctx.extra.get("json_documents_checked_386", 0) + 1
+            except jsoncheck.Bad as e:
+                ctx.violation("NetFlow v5 (built for GOARCH=386): the JSON of a decoded message is wrong: %s" % e,
+                              {"buf": buf, "json": raw.decode("utf-8", "replace")[:1500]}, key="v5:json386:" + str(e).split(":")[0][:40])
     # the real workers in parallel under the race detector: what each publishes is its own datagram's message
     from props import c12
     c12.parallel_stage(ctx, thorough, protos=["netflow5"])
